@@ -64,11 +64,8 @@ def queries():
             import traceback
             sys.stderr.write("C05: encoder failure for %s: %s\n" % (key, traceback.format_exc()))
             continue
-        cov = None
-        if key in HS_PROGRAMS:
-            cov = HS_COVERED
         for n in p.natives.values():
-            if cov is not None and n.name not in cov:
+            if (key, n.name) in NOT_COVERED and not os.environ.get("C05_ALL_NATIVES"):
                 continue
             units = t0tool.effect_units(p)
             base = ["-DC05_KEY_%s=1" % key, "-DOP=%d" % n.op, "-I" + d, "-I" + os.path.join(ROOT, "encoders")]
@@ -95,7 +92,9 @@ def queries():
     return qs
 
 
-HS_COVERED = set()
+# natives of the handshake programs whose layer-2 query is not part of the claim (reason given);
+# their stack effects are still proved (E4 covers every native)
+NOT_COVERED = {}
 
 
 def _res(name, verdict, desc, failed=(), stats=None, **kw):
